@@ -24,13 +24,15 @@ CLAIMED = {
  'C02': ('Kernel-checked theorems for token lists of any length: the generated opcode dictionaries are sound w.r.t. the consensus numbering and '
          'mutually inverse (evaluated over the whole table), the generated _op_push_data/_push_integer equal the minimal-push / script-number Spec '
          'for every length, and for the hand model of Script.to_bytes / from_raw: assembly = consensus encoding, disassembly renders every token, '
-         're-assembly reproduces the bytes (both has_segwit values). Hand model tied to the code by the correspondence run.',
-         NOTE_COMMON, 'Lean 4 proof (translated leaves + hand model) + differential correspondence', '6/C02'),
+         're-assembly reproduces the bytes (both has_segwit values). Script.to_bytes itself is re-translated on every run and proved equal to the model '
+         'on every token list (tier T), so assembly = consensus encoding is a theorem about the translated source; Script.from_raw is a hand model tied to the code by the correspondence run.',
+         NOTE_COMMON, 'Lean 4 proof over translated source (assembly, push forms) and hand model (disassembly) + differential correspondence', '6/C02'),
  'C01': ('Kernel-checked theorems for all well-formed transactions (any counts, coinbase/legacy/segwit/mixed, empty stacks anywhere): '
          'Model.Tx.toBytes = the BIP144/legacy wire Spec, parse(encode t) renders t field for field, re-encoding the parse gives the same bytes, '
-         'txid/wtxid are the reversed double-SHA256 of the stripped/full encoding (SHA-256 a parameter). The hand model of the Transaction codecs is '
-         'tied to the code by the correspondence run incl. the mainnet fixture transactions.',
-         NOTE_COMMON + 'SHA-256 is a parameter (driver instance checked against hashlib each run).', 'Lean 4 proof (hand model) + differential correspondence', '6/C01'),
+         'txid/wtxid are the reversed double-SHA256 of the stripped/full encoding (SHA-256 a parameter). The four serialisers (TxWitnessInput/TxOutput/TxInput/'
+         'Transaction.to_bytes) are re-translated on every run and proved equal to the model whenever the prefixed lengths are below 2^64 (tier T), so '
+         'serialisation = wire format is a theorem about the translated source; the parser (from_raw) is a hand model tied to the code by the correspondence run incl. the mainnet fixture transactions.',
+         NOTE_COMMON + 'SHA-256 is a parameter (driver instance checked against hashlib each run).', 'Lean 4 proof over translated source (serialisation) and hand model (parsing) + differential correspondence', '6/C01'),
  'C16': ('Kernel-checked theorems: size = length of the full serialisation, vsize = ceil((3*stripped + full)/4) for any witness structure, '
          'legacy vsize = size; model in integer arithmetic, tied to get_size/get_vsize by the correspondence run (stacks of 0..300 items).',
          NOTE_COMMON + 'binary64 quarter arithmetic exact below 2^51 (assumed, exercised).', 'Lean 4 proof (hand model) + differential correspondence', '6/C16'),
